@@ -33,7 +33,7 @@ pub fn run(args: &Args) -> Out {
         let v: Value = serde_json::from_str(&std::fs::read_to_string(p).ok()?).ok()?;
         v["replay"]["case"].as_u64().map(|x| x as usize)
     });
-    let n = args.n(19_200, 960_000);
+    let n = args.n(57_600, 960_000);
     for idx in 0..n {
         if let Some(o) = only {
             if o != idx {
